@@ -112,13 +112,18 @@ def read_cp(m):
             "ill": [m.get_illegal_bin_hits(i) for i in range(nl)]}
 
 
+TIMED_OUT = []
+
+
 def run_impl(vsc, spec, iff_mode="field", with_events=True):
     """Execute a coverpoint spec + sample sequence on the real library.
     Returns the same shape as the driver's cp.run, or {"exc": ...}."""
     from vsc.impl.coverage_registry import CoverageRegistry
     CoverageRegistry.clear()
+    if TIMED_OUT:
+        return {"exc": "DoesNotTerminate", "msg": "skipped: an earlier coverpoint of this run did not return"}
     try:
-        with common.quiet():
+        with common.quiet(), common.time_limit(60):     # milliseconds on the registered tree
             cg, sample, getm = build_cg(vsc, spec, iff_mode)
             m = getm()
             events = []
@@ -140,6 +145,9 @@ def run_impl(vsc, spec, iff_mode="field", with_events=True):
             if with_events:
                 r["events"] = events
             return r
+    except common.CallTimeout:
+        TIMED_OUT.append(1)
+        return {"exc": "DoesNotTerminate", "msg": "no result within 60 s (or out of memory)"}
     except Exception as e:
         return {"exc": type(e).__name__, "msg": str(e)[:200]}
 
